@@ -730,4 +730,793 @@ theorem vWalk_pre_exact (ls : List KLayer) (hls : KLayersOK ls) (hpre : PreOnly 
                 simpa [fullKey, List.append_assoc] using hfind⟩
             exact unmapAll_complete k hls.1 inner objs hrend' h kk hkkp c hin2
 
+
+/-! ### Walk / Get coherence for every composite read bucket (`BExpr`) -/
+
+/-- Well-formed composite: every `MapOnPrefix` prefix is the rendering of a key (a normalised,
+    validated relative path — what `MapOnPrefix` documents as its precondition; "." = `[]`). -/
+def BExpr.WF : BExpr → Prop
+  | .base _ => True
+  | .pre p b => (∃ k : Key, AllProper k ∧ p = renderKey k) ∧ BExpr.WF b
+  | .filt _ b => BExpr.WF b
+  | .multi a b => BExpr.WF a ∧ BExpr.WF b
+  | .overlay a b => BExpr.WF a ∧ BExpr.WF b
+  | .strip b => BExpr.WF b
+
+/-- Every base bucket satisfies the memory-bucket invariants (kept by every operation:
+    `mem_refines_spec`). -/
+def BasesOK (bs : Bases) : Prop := ∀ i, KeysValid (bs.get i) ∧ NodupKeys (bs.get i)
+
+theorem hasKey_true_iff {objs : List (Str × Content)} {k : Str} :
+    hasKey objs k = true ↔ ∃ c, (k, c) ∈ objs := by
+  unfold hasKey
+  rw [List.any_eq_true]
+  constructor
+  · rintro ⟨⟨a, b⟩, hmem, heq⟩
+    simp only [decide_eq_true_eq] at heq
+    subst heq; exact ⟨b, hmem⟩
+  · rintro ⟨c, hmem⟩
+    exact ⟨(k, c), hmem, by simp⟩
+
+theorem nodupKeys_append {a b : List (Str × Content)} (ha : NodupKeys a) (hb : NodupKeys b)
+    (hd : ∀ kv ∈ b, hasKey a kv.1 = false) : NodupKeys (a ++ b) := by
+  unfold NodupKeys at *
+  rw [List.map_append, List.nodup_append]
+  refine ⟨ha, hb, ?_⟩
+  intro x hx y hy hxy
+  subst hxy
+  obtain ⟨kva, hkva, hea⟩ := List.mem_map.mp hx
+  obtain ⟨kvb, hkvb, heb⟩ := List.mem_map.mp hy
+  have := hd kvb hkvb
+  have ht : hasKey a kvb.1 = true := hasKey_true_iff.mpr ⟨kva.2, by rw [heb, ← hea]; exact hkva⟩
+  rw [ht] at this; cases this
+
+theorem mergeMulti_ok {oa ob ob' : List (Str × Content)} (h : mergeMulti oa ob = .ok ob') :
+    ob' = ob ∧ ∀ kv ∈ ob, hasKey oa kv.1 = false := by
+  induction ob generalizing ob' with
+  | nil => simp [mergeMulti] at h; subst h; exact ⟨rfl, fun kv hkv => by cases hkv⟩
+  | cons o rest ih =>
+    unfold mergeMulti at h
+    by_cases hs : hasKey oa o.1 = true
+    · simp [hs] at h
+    · have hs' : hasKey oa o.1 = false := by simpa using hs
+      simp only [hs', Bool.false_eq_true, if_false] at h
+      cases hm : mergeMulti oa rest with
+      | error e => rw [hm] at h; cases h
+      | ok out =>
+        rw [hm] at h
+        injection h with h
+        obtain ⟨h1, h2⟩ := ih hm
+        refine ⟨by rw [← h, h1], ?_⟩
+        intro kv hkv
+        rcases List.mem_cons.mp hkv with e | hr
+        · subst e; exact hs'
+        · exact h2 kv hr
+
+/-! #### `rGet` on a rendered key -/
+
+theorem mapFullPath_key {p k : Key} (hp : AllProper p) (hk : AllProper k) (hne : k ≠ []) :
+    mapFullPath (renderKey p) (renderKey k) = .ok (renderKey (p ++ k)) := by
+  unfold mapFullPath
+  rw [validate_renderKey hk]
+  simp only
+  rw [if_neg (renderKey_ne_dot hk hne), join_keys hp hk]
+
+theorem memGet_key (m : Mem) {k : Key} (hk : AllProper k) (hne : k ≠ []) :
+    memGet m (renderKey k) =
+      (match m.find (renderKey k) with | some c => .ok c | none => .error .notExist) := by
+  unfold memGet; rw [validatePath_renderKey hk hne]; rfl
+
+theorem rGet_pre_key (b : BExpr) (bs : Bases) {p k : Key} (hp : AllProper p) (hk : AllProper k)
+    (hne : k ≠ []) :
+    rGet (.pre (renderKey p) b) bs (renderKey k) = rGet b bs (renderKey (p ++ k)) := by
+  simp only [rGet, mapFullPath_key hp hk hne]
+
+theorem rGet_filt_key (f : Matcher) (b : BExpr) (bs : Bases) {k : Key} (hk : AllProper k) :
+    rGet (.filt f b) bs (renderKey k) =
+      if f.matches (renderKey k) then rGet b bs (renderKey k) else .error .notExist := by
+  simp only [rGet, validate_renderKey hk]
+  cases f.matches (renderKey k) <;> simp
+
+theorem append_ne_nil_right {α : Type} (p : List α) {k : List α} (h : k ≠ []) : p ++ k ≠ [] := by
+  intro e; exact h (List.append_eq_nil_iff.mp e).2
+
+/-- For a proper (non-root) rendered key a composite `Get`/`Stat` either finds an object, or
+    reports not-exist, or — only below a union — reports the path as present in several
+    members. No other error class is possible. -/
+theorem rGet_key_cases (e : BExpr) (he : e.WF) (bs : Bases) {k : Key} (hk : AllProper k) (hne : k ≠ []) :
+    (∃ c, rGet e bs (renderKey k) = .ok c) ∨ rGet e bs (renderKey k) = .error .notExist ∨
+      rGet e bs (renderKey k) = .error .multiple := by
+  induction e generalizing k with
+  | base i =>
+    simp only [rGet, memGet_key _ hk hne]
+    cases (bs.get i).find (renderKey k) with
+    | some c => exact Or.inl ⟨c, rfl⟩
+    | none => exact Or.inr (Or.inl rfl)
+  | pre p b ih =>
+    obtain ⟨⟨kp, hkp, rfl⟩, hb⟩ := he
+    rw [rGet_pre_key b bs hkp hk hne]
+    exact ih hb (allProper_append.mpr ⟨hkp, hk⟩) (append_ne_nil_right kp hne)
+  | filt f b ih =>
+    rw [rGet_filt_key f b bs hk]
+    cases f.matches (renderKey k) with
+    | true => simpa using ih he hk hne
+    | false => exact Or.inr (Or.inl (by simp))
+  | multi a b iha ihb =>
+    rcases iha he.1 hk hne with ⟨ca, ha⟩ | ha | ha <;> rcases ihb he.2 hk hne with ⟨cb, hb⟩ | hb | hb
+    all_goals simp [rGet, ha, hb]
+  | overlay a b iha ihb =>
+    rcases iha he.1 hk hne with ⟨ca, ha⟩ | ha | ha
+    · exact Or.inl ⟨ca, by simp [rGet, ha]⟩
+    · have : rGet (.overlay a b) bs (renderKey k) = rGet b bs (renderKey k) := by simp [rGet, ha]
+      rw [this]; exact ihb he.2 hk hne
+    · exact Or.inr (Or.inr (by simp [rGet, ha]))
+  | strip b ih =>
+    simp only [rGet]; exact ih he hk hne
+
+
+/-- What a successful composite walk under prefix key `kq` must look like for the composite to be
+    ONE path→bytes map: keys are rendered keys, none listed twice, every listed non-root entry
+    is what `Get` returns for that path, every gettable path under the prefix is listed, and
+    `Get` below the prefix never fails for another reason than not-exist. -/
+structure Coherent (e : BExpr) (bs : Bases) (kq : Key) (objs : List (Str × Content)) : Prop where
+  nodup : NodupKeys objs
+  rendered : KeysRendered objs
+  sound : ∀ (kk : Key) (c : Content), AllProper kk → (renderKey kk, c) ∈ objs →
+      kq <+: kk ∧ (kk ≠ [] → rGet e bs (renderKey kk) = .ok c)
+  complete : ∀ (kk : Key) (c : Content), AllProper kk → kk ≠ [] → kq <+: kk →
+      rGet e bs (renderKey kk) = .ok c → (renderKey kk, c) ∈ objs
+  total : ∀ (kk : Key), AllProper kk → kk ≠ [] → kq <+: kk →
+      (∃ c, rGet e bs (renderKey kk) = .ok c) ∨ rGet e bs (renderKey kk) = .error .notExist
+
+theorem renderKey_inj_of_validate {a b : Key} (ha : AllProper a) (hb : AllProper b) {s : Str}
+    (h1 : normalizeAndValidate s = .ok (renderKey a)) (h2 : normalizeAndValidate s = .ok (renderKey b)) :
+    a = b := by
+  rw [h1] at h2; injection h2 with e; exact renderKey_inj ha hb e
+
+theorem ok_ne_notExist {c : Content} : (Except.ok c : Except PErr Content) ≠ .error .notExist := by
+  intro h; cases h
+
+/-- Walk/Get coherence, by structural induction over the composite. -/
+theorem rWalk_coherent (e : BExpr) (he : e.WF) (bs : Bases) (hbs : BasesOK bs) (pfx : Str)
+    (objs : List (Str × Content)) (h : rWalk e bs pfx = .ok objs) :
+    ∃ kq : Key, AllProper kq ∧ normalizeAndValidate pfx = .ok (renderKey kq) ∧ Coherent e bs kq objs := by
+  induction e generalizing pfx objs with
+  | base i =>
+    simp only [rWalk] at h
+    obtain ⟨hv, hn⟩ := hbs i
+    obtain ⟨kq, hkq, hnv, hnd, hall⟩ := memWalk_exact (bs.get i) hv hn pfx objs h
+    refine ⟨kq, hkq, hnv, hnd, ?_, ?_, ?_, ?_⟩
+    · intro qc hqc
+      unfold memWalk validatePrefix at h
+      rw [hnv] at h
+      injection h with h
+      rw [← h] at hqc
+      obtain ⟨kk, hkk, _, hk⟩ := hv qc (List.mem_filter.mp hqc).1
+      exact ⟨kk, hkk, hk⟩
+    · intro kk c hkk hin
+      obtain ⟨h1, h2⟩ := (hall kk c hkk).mp hin
+      refine ⟨h1, fun hne => ?_⟩
+      simp only [rGet, memGet_key _ hkk hne, h2]
+    · intro kk c hkk hne hpre hg
+      simp only [rGet, memGet_key _ hkk hne] at hg
+      refine (hall kk c hkk).mpr ⟨hpre, ?_⟩
+      cases hf : (bs.get i).find (renderKey kk) with
+      | none => rw [hf] at hg; cases hg
+      | some c' => rw [hf] at hg; injection hg with hg; rw [hg]
+    · intro kk hkk hne _
+      simp only [rGet, memGet_key _ hkk hne]
+      cases (bs.get i).find (renderKey kk) with
+      | some c => exact Or.inl ⟨c, rfl⟩
+      | none => exact Or.inr rfl
+  | pre p b ih =>
+    obtain ⟨⟨kp, hkp, rfl⟩, hb⟩ := he
+    simp only [rWalk] at h
+    cases hnv : normalizeAndValidate pfx with
+    | error e => rw [hnv] at h; cases h
+    | ok q =>
+      rw [hnv] at h
+      simp only at h
+      obtain ⟨kq, hkq, hq⟩ := validate_sound pfx q hnv
+      rw [hq, join_keys hkp hkq] at h
+      cases hw : rWalk b bs (renderKey (kp ++ kq)) with
+      | error e => rw [hw] at h; cases h
+      | ok inner =>
+        rw [hw] at h
+        simp only at h
+        obtain ⟨kq', hkq', hnv', hc⟩ := ih hb _ inner hw
+        have hkk : AllProper (kp ++ kq) := allProper_append.mpr ⟨hkp, hkq⟩
+        have hkq'eq : kq' = kp ++ kq :=
+          (renderKey_inj_of_validate hkk hkq' (validate_renderKey hkk) hnv').symm
+        subst hkq'eq
+        obtain ⟨hndo, hrendo⟩ := unmapAll_nodup kp hkp inner objs hc.rendered hc.nodup h
+        refine ⟨kq, hkq, by rw [hq], hndo, hrendo, ?_, ?_, ?_⟩
+        · intro kk c hkkp hin
+          have hkkk : AllProper (kp ++ kk) := allProper_append.mpr ⟨hkp, hkkp⟩
+          obtain ⟨kk2, hkk2, hq2, hin2⟩ := unmapAll_sound kp hkp inner objs hc.rendered h (renderKey kk, c) hin
+          simp only at hq2 hin2
+          have : kk2 = kk := (renderKey_inj hkkp hkk2 hq2).symm
+          subst this
+          obtain ⟨h1, h2⟩ := hc.sound (kp ++ kk2) c hkkk hin2
+          refine ⟨(List.prefix_append_right_inj kp).mp h1, fun hne => ?_⟩
+          rw [rGet_pre_key b bs hkp hkkp hne]
+          exact h2 (append_ne_nil_right kp hne)
+        · intro kk c hkkp hne hpre hg
+          have hkkk : AllProper (kp ++ kk) := allProper_append.mpr ⟨hkp, hkkp⟩
+          rw [rGet_pre_key b bs hkp hkkp hne] at hg
+          have hin2 := hc.complete (kp ++ kk) c hkkk (append_ne_nil_right kp hne)
+            ((List.prefix_append_right_inj kp).mpr hpre) hg
+          exact unmapAll_complete kp hkp inner objs hc.rendered h kk hkkp c hin2
+        · intro kk hkkp hne hpre
+          have hkkk : AllProper (kp ++ kk) := allProper_append.mpr ⟨hkp, hkkp⟩
+          rw [rGet_pre_key b bs hkp hkkp hne]
+          exact hc.total (kp ++ kk) hkkk (append_ne_nil_right kp hne)
+            ((List.prefix_append_right_inj kp).mpr hpre)
+  | filt f b ih =>
+    simp only [rWalk] at h
+    cases hnv : normalizeAndValidate pfx with
+    | error e => rw [hnv] at h; cases h
+    | ok q =>
+      rw [hnv] at h
+      simp only at h
+      cases hw : rWalk b bs q with
+      | error e => rw [hw] at h; cases h
+      | ok inner =>
+        rw [hw] at h
+        injection h with h
+        obtain ⟨kq, hkq, hq⟩ := validate_sound pfx q hnv
+        obtain ⟨kq', hkq', hnv', hc⟩ := ih he q inner hw
+        have : kq' = kq := by
+          rw [hq] at hnv'
+          exact (renderKey_inj_of_validate hkq hkq' (validate_renderKey hkq) hnv').symm
+        subst this
+        refine ⟨kq', hkq', by rw [hq], ?_, ?_, ?_, ?_, ?_⟩
+        · rw [← h]; exact nodupKeys_filter hc.nodup _
+        · intro qc hqc; rw [← h] at hqc; exact hc.rendered qc (List.mem_filter.mp hqc).1
+        · intro kk c hkk hin
+          rw [← h] at hin
+          obtain ⟨hmem, hmatch⟩ := List.mem_filter.mp hin
+          simp only at hmatch
+          obtain ⟨h1, h2⟩ := hc.sound kk c hkk hmem
+          refine ⟨h1, fun hne => ?_⟩
+          rw [rGet_filt_key f b bs hkk, if_pos hmatch]; exact h2 hne
+        · intro kk c hkk hne hpre hg
+          rw [rGet_filt_key f b bs hkk] at hg
+          by_cases hmatch : f.matches (renderKey kk) = true
+          · rw [if_pos hmatch] at hg
+            rw [← h]; exact List.mem_filter.mpr ⟨hc.complete kk c hkk hne hpre hg, hmatch⟩
+          · rw [if_neg hmatch] at hg; cases hg
+        · intro kk hkk hne hpre
+          rw [rGet_filt_key f b bs hkk]
+          by_cases hmatch : f.matches (renderKey kk) = true
+          · rw [if_pos hmatch]; exact hc.total kk hkk hne hpre
+          · rw [if_neg hmatch]; exact Or.inr rfl
+  | multi a b iha ihb =>
+    simp only [rWalk] at h
+    cases hwa : rWalk a bs pfx with
+    | error e => rw [hwa] at h; cases h
+    | ok oa =>
+      rw [hwa] at h
+      simp only at h
+      cases hwb : rWalk b bs pfx with
+      | error e => rw [hwb] at h; cases h
+      | ok ob =>
+        rw [hwb] at h
+        simp only at h
+        cases hm : mergeMulti oa ob with
+        | error e => rw [hm] at h; cases h
+        | ok ob' =>
+          rw [hm] at h
+          injection h with h
+          obtain ⟨hob', hdisj⟩ := mergeMulti_ok hm
+          rw [hob'] at h
+          obtain ⟨kq, hkq, hnv, ca⟩ := iha he.1 pfx oa hwa
+          obtain ⟨kq2, hkq2, hnv2, cb⟩ := ihb he.2 pfx ob hwb
+          have : kq2 = kq := renderKey_inj_of_validate hkq2 hkq hnv2 hnv
+          subst this
+          -- a key cannot be gettable from both members
+          have hexcl : ∀ kk, AllProper kk → kk ≠ [] → kq2 <+: kk → ∀ c1 c2,
+              rGet a bs (renderKey kk) = .ok c1 → rGet b bs (renderKey kk) = .ok c2 → False := by
+            intro kk hkk hne hpre c1 c2 h1 h2
+            have hia := ca.complete kk c1 hkk hne hpre h1
+            have hib := cb.complete kk c2 hkk hne hpre h2
+            have := hdisj _ hib
+            rw [hasKey_true_iff.mpr ⟨c1, hia⟩] at this; cases this
+          refine ⟨kq2, hkq2, hnv, ?_, ?_, ?_, ?_, ?_⟩
+          · rw [← h]; exact nodupKeys_append ca.nodup cb.nodup hdisj
+          · intro qc hqc; rw [← h] at hqc
+            rcases List.mem_append.mp hqc with hqc | hqc
+            · exact ca.rendered qc hqc
+            · exact cb.rendered qc hqc
+          · intro kk c hkk hin
+            rw [← h] at hin
+            rcases List.mem_append.mp hin with hin | hin
+            · obtain ⟨h1, h2⟩ := ca.sound kk c hkk hin
+              refine ⟨h1, fun hne => ?_⟩
+              have hga := h2 hne
+              rcases cb.total kk hkk hne h1 with ⟨c2, hgb⟩ | hgb
+              · exact absurd (hexcl kk hkk hne h1 c c2 hga hgb) id
+              · simp [rGet, hga, hgb]
+            · obtain ⟨h1, h2⟩ := cb.sound kk c hkk hin
+              refine ⟨h1, fun hne => ?_⟩
+              have hgb := h2 hne
+              rcases ca.total kk hkk hne h1 with ⟨c1, hga⟩ | hga
+              · exact absurd (hexcl kk hkk hne h1 c1 c hga hgb) id
+              · simp [rGet, hga, hgb]
+          · intro kk c hkk hne hpre hg
+            rw [← h]
+            rcases ca.total kk hkk hne hpre with ⟨c1, hga⟩ | hga <;>
+              rcases cb.total kk hkk hne hpre with ⟨c2, hgb⟩ | hgb
+            · exact absurd (hexcl kk hkk hne hpre c1 c2 hga hgb) id
+            · simp [rGet, hga, hgb] at hg; subst hg
+              exact List.mem_append.mpr (Or.inl (ca.complete kk c1 hkk hne hpre hga))
+            · simp [rGet, hga, hgb] at hg; subst hg
+              exact List.mem_append.mpr (Or.inr (cb.complete kk c2 hkk hne hpre hgb))
+            · simp [rGet, hga, hgb] at hg
+          · intro kk hkk hne hpre
+            rcases ca.total kk hkk hne hpre with ⟨c1, hga⟩ | hga <;>
+              rcases cb.total kk hkk hne hpre with ⟨c2, hgb⟩ | hgb
+            · exact absurd (hexcl kk hkk hne hpre c1 c2 hga hgb) id
+            · exact Or.inl ⟨c1, by simp [rGet, hga, hgb]⟩
+            · exact Or.inl ⟨c2, by simp [rGet, hga, hgb]⟩
+            · exact Or.inr (by simp [rGet, hga, hgb])
+  | overlay a b iha ihb =>
+    simp only [rWalk] at h
+    cases hwa : rWalk a bs pfx with
+    | error e => rw [hwa] at h; cases h
+    | ok oa =>
+      rw [hwa] at h
+      simp only at h
+      cases hwb : rWalk b bs pfx with
+      | error e => rw [hwb] at h; cases h
+      | ok ob =>
+        rw [hwb] at h
+        injection h with h
+        obtain ⟨kq, hkq, hnv, ca⟩ := iha he.1 pfx oa hwa
+        obtain ⟨kq2, hkq2, hnv2, cb⟩ := ihb he.2 pfx ob hwb
+        have : kq2 = kq := renderKey_inj_of_validate hkq2 hkq hnv2 hnv
+        subst this
+        have hdisj : ∀ kv ∈ ob.filter (fun kv => !hasKey oa kv.1), hasKey oa kv.1 = false := by
+          intro kv hkv; simpa using (List.mem_filter.mp hkv).2
+        refine ⟨kq2, hkq2, hnv, ?_, ?_, ?_, ?_, ?_⟩
+        · rw [← h]; exact nodupKeys_append ca.nodup (nodupKeys_filter cb.nodup _) hdisj
+        · intro qc hqc; rw [← h] at hqc
+          rcases List.mem_append.mp hqc with hqc | hqc
+          · exact ca.rendered qc hqc
+          · exact cb.rendered qc (List.mem_filter.mp hqc).1
+        · intro kk c hkk hin
+          rw [← h] at hin
+          rcases List.mem_append.mp hin with hin | hin
+          · obtain ⟨h1, h2⟩ := ca.sound kk c hkk hin
+            exact ⟨h1, fun hne => by simp [rGet, h2 hne]⟩
+          · obtain ⟨hmem, hnk⟩ := List.mem_filter.mp hin
+            obtain ⟨h1, h2⟩ := cb.sound kk c hkk hmem
+            refine ⟨h1, fun hne => ?_⟩
+            rcases ca.total kk hkk hne h1 with ⟨c1, hga⟩ | hga
+            · have := hdisj _ hin
+              rw [hasKey_true_iff.mpr ⟨c1, ca.complete kk c1 hkk hne h1 hga⟩] at this; cases this
+            · simp [rGet, hga, h2 hne]
+        · intro kk c hkk hne hpre hg
+          rw [← h]
+          rcases ca.total kk hkk hne hpre with ⟨c1, hga⟩ | hga
+          · simp [rGet, hga] at hg; subst hg
+            exact List.mem_append.mpr (Or.inl (ca.complete kk c1 hkk hne hpre hga))
+          · simp [rGet, hga] at hg
+            refine List.mem_append.mpr (Or.inr (List.mem_filter.mpr ⟨cb.complete kk c hkk hne hpre hg, ?_⟩))
+            cases hk : hasKey oa (renderKey kk) with
+            | false => rfl
+            | true =>
+              obtain ⟨c', hc'⟩ := hasKey_true_iff.mp hk
+              have := (ca.sound kk c' hkk hc').2 hne
+              rw [hga] at this; cases this
+        · intro kk hkk hne hpre
+          rcases ca.total kk hkk hne hpre with ⟨c1, hga⟩ | hga
+          · exact Or.inl ⟨c1, by simp [rGet, hga]⟩
+          · have : rGet (.overlay a b) bs (renderKey kk) = rGet b bs (renderKey kk) := by simp [rGet, hga]
+            rw [this]; exact cb.total kk hkk hne hpre
+  | strip b ih =>
+    simp only [rWalk] at h
+    obtain ⟨kq, hkq, hnv, hc⟩ := ih he pfx objs h
+    exact ⟨kq, hkq, hnv, hc.nodup, hc.rendered,
+      fun kk c hkk hin => by simpa only [rGet] using hc.sound kk c hkk hin,
+      fun kk c hkk hne hpre hg => hc.complete kk c hkk hne hpre (by simpa only [rGet] using hg),
+      fun kk hkk hne hpre => by simpa only [rGet] using hc.total kk hkk hne hpre⟩
+
+/-! #### Spelling: every composite operation depends on its path only through the validated form -/
+
+theorem rGet_spelling (e : BExpr) (bs : Bases) (s₁ s₂ : Str)
+    (h : normalizeAndValidate s₁ = normalizeAndValidate s₂) : rGet e bs s₁ = rGet e bs s₂ := by
+  induction e with
+  | base i => simp only [rGet, memGet, validatePath, h]
+  | pre p b _ => simp only [rGet, mapFullPath, h]
+  | filt f b _ => simp only [rGet, h]
+  | multi a b iha ihb => simp only [rGet, iha, ihb]
+  | overlay a b iha ihb => simp only [rGet, iha, ihb]
+  | strip b ih => simp only [rGet, ih]
+
+theorem rWalk_spelling (e : BExpr) (bs : Bases) (s₁ s₂ : Str)
+    (h : normalizeAndValidate s₁ = normalizeAndValidate s₂) : rWalk e bs s₁ = rWalk e bs s₂ := by
+  induction e with
+  | base i => simp only [rWalk, memWalk, validatePrefix, h]
+  | pre p b _ => simp only [rWalk, h]
+  | filt f b _ => simp only [rWalk, h]
+  | multi a b iha ihb => simp only [rWalk, iha, ihb]
+  | overlay a b iha ihb => simp only [rWalk, iha, ihb]
+  | strip b ih => simp only [rWalk, ih]
+
+/-- `rGet` of any spelling of a key is `rGet` of the rendered key. -/
+theorem rGet_of_validate (e : BExpr) (bs : Bases) {path : Str} {k : Key} (hk : AllProper k)
+    (h : normalizeAndValidate path = .ok (renderKey k)) : rGet e bs path = rGet e bs (renderKey k) :=
+  rGet_spelling e bs _ _ (by rw [h, validate_renderKey hk])
+
+/-! #### The composite read as an abstract map -/
+
+/-- A composite bucket read as an abstract map: what `Get` finds at each key. -/
+def absE (e : BExpr) (bs : Bases) : Key → Option Content := fun k =>
+  match rGet e bs (renderKey k) with
+  | .ok c => some c
+  | .error _ => none
+
+theorem absE_base (i : Nat) (bs : Bases) {k : Key} (hk : AllProper k) (hne : k ≠ []) :
+    absE (.base i) bs k = (bs.get i).find (renderKey k) := by
+  simp only [absE, rGet, memGet_key _ hk hne]
+  cases (bs.get i).find (renderKey k) <;> rfl
+
+/-- mapView_abs: a prefix view is the sub-map below the prefix, re-keyed relative to it. -/
+theorem absE_pre (b : BExpr) (bs : Bases) {p k : Key} (hp : AllProper p) (hk : AllProper k) (hne : k ≠ []) :
+    absE (.pre (renderKey p) b) bs k = absE b bs (p ++ k) := by
+  simp only [absE, rGet_pre_key b bs hp hk hne]
+
+/-- filterView_abs: a filtered view is the map restricted to the matching paths. -/
+theorem absE_filt (f : Matcher) (b : BExpr) (bs : Bases) {k : Key} (hk : AllProper k) :
+    absE (.filt f b) bs k = if f.matches (renderKey k) then absE b bs k else none := by
+  simp only [absE, rGet_filt_key f b bs hk]
+  cases f.matches (renderKey k) <;> simp
+
+/-- An overlay is the left-biased union of its members' maps (when the first member does not
+    itself fail with a duplicate report). -/
+theorem absE_overlay (a b : BExpr) (bs : Bases) (k : Key)
+    (hm : rGet a bs (renderKey k) ≠ .error .multiple) (he : a.WF) (hk : AllProper k) (hne : k ≠ []) :
+    absE (.overlay a b) bs k = (match absE a bs k with | some c => some c | none => absE b bs k) := by
+  rcases rGet_key_cases a he bs hk hne with ⟨c, h⟩ | h | h
+  · simp [absE, rGet, h]
+  · simp [absE, rGet, h]
+  · exact absurd h hm
+
+/-- A union is the disjoint union of its members' maps; a key in both members is NOT served
+    (reported as duplicate). -/
+theorem absE_multi (a b : BExpr) (bs : Bases) (k : Key) (ha : a.WF) (hb : b.WF) (hk : AllProper k) (hne : k ≠ [])
+    (hma : rGet a bs (renderKey k) ≠ .error .multiple) (hmb : rGet b bs (renderKey k) ≠ .error .multiple) :
+    absE (.multi a b) bs k =
+      (match absE a bs k, absE b bs k with
+        | some c, none => some c
+        | none, some c => some c
+        | _, _ => none) ∧
+    ((absE a bs k).isSome → (absE b bs k).isSome → rGet (.multi a b) bs (renderKey k) = .error .multiple) := by
+  rcases rGet_key_cases a ha bs hk hne with ⟨c, h⟩ | h | h
+  · rcases rGet_key_cases b hb bs hk hne with ⟨c', h'⟩ | h' | h'
+    · simp [absE, rGet, h, h']
+    · simp [absE, rGet, h, h']
+    · exact absurd h' hmb
+  · rcases rGet_key_cases b hb bs hk hne with ⟨c', h'⟩ | h' | h'
+    · simp [absE, rGet, h, h']
+    · simp [absE, rGet, h, h']
+    · exact absurd h' hmb
+  · exact absurd h hma
+
+theorem absE_strip (b : BExpr) (bs : Bases) (k : Key) : absE (.strip b) bs k = absE b bs k := by
+  simp only [absE, rGet]
+
+/-- A successful composite walk lists exactly the entries of the composite's map under the
+    prefix (non-root keys). -/
+theorem rWalk_lists_absE (e : BExpr) (he : e.WF) (bs : Bases) (hbs : BasesOK bs) (pfx : Str)
+    (objs : List (Str × Content)) (h : rWalk e bs pfx = .ok objs) :
+    ∃ kq : Key, AllProper kq ∧ normalizeAndValidate pfx = .ok (renderKey kq) ∧
+      ∀ (kk : Key) (c : Content), AllProper kk → kk ≠ [] →
+        ((renderKey kk, c) ∈ objs ↔ (kq <+: kk ∧ absE e bs kk = some c)) := by
+  obtain ⟨kq, hkq, hnv, hc⟩ := rWalk_coherent e he bs hbs pfx objs h
+  refine ⟨kq, hkq, hnv, ?_⟩
+  intro kk c hkk hne
+  constructor
+  · intro hin
+    obtain ⟨h1, h2⟩ := hc.sound kk c hkk hin
+    exact ⟨h1, by simp only [absE, h2 hne]⟩
+  · intro ⟨hpre, ha⟩
+    apply hc.complete kk c hkk hne hpre
+    simp only [absE] at ha
+    cases hg : rGet e bs (renderKey kk) with
+    | ok c' => rw [hg] at ha; injection ha with ha; rw [ha]
+    | error er => rw [hg] at ha; cases ha
+
+/-! #### Get through prefix views is complete -/
+
+/-- Get through any nesting of prefix views: `ok` exactly when the base bucket stores the mapped
+    key, `not-exist` otherwise. -/
+theorem vGet_pre_complete (ls : List KLayer) (hls : KLayersOK ls) (hpre : PreOnly ls) (m : Mem)
+    (path : Str) (kq : Key) (hkq : AllProper kq) (hne : kq ≠ [])
+    (hnv : normalizeAndValidate path = .ok (renderKey kq)) :
+    vGet (ls.map KLayer.toLayer) m path =
+      (match m.find (renderKey (fullKey ls ++ kq)) with
+        | some c => .ok c
+        | none => .error .notExist) := by
+  induction ls generalizing path kq with
+  | nil =>
+    have hvp : validatePath path = .ok (renderKey kq) := by
+      unfold validatePath; rw [hnv]; simp only; rw [if_neg (renderKey_ne_dot hkq hne)]
+    simp only [List.map, vGet, memGet, hvp, fullKey, List.nil_append]
+    cases m.find (renderKey kq) <;> rfl
+  | cons l ls ih =>
+    cases l with
+    | filt f => exact absurd hpre (by simp [PreOnly])
+    | pre k =>
+      have hm : mapFullPath (renderKey k) path = .ok (renderKey (k ++ kq)) := by
+        unfold mapFullPath; rw [hnv]; simp only
+        rw [if_neg (renderKey_ne_dot hkq hne), join_keys hls.1 hkq]
+      have hkk : AllProper (k ++ kq) := allProper_append.mpr ⟨hls.1, hkq⟩
+      simp only [List.map, KLayer.toLayer, vGet, hm]
+      rw [ih hls.2 hpre (renderKey (k ++ kq)) (k ++ kq) hkk (append_ne_nil_right k hne) (validate_renderKey hkk)]
+      simp [fullKey, List.append_assoc]
+
+/-! #### putAll / Copy from an arbitrary composite -/
+
+theorem Bases.get_set_eq (bs : Bases) (i : Nat) (m : Mem) : (bs.set i m).get i = m := by
+  unfold Bases.set Bases.get
+  have hi : i < (List.range (max bs.length (i + 1))).length := by simp; omega
+  rw [List.getD_eq_getElem?_getD, List.getElem?_map, List.getElem?_eq_getElem hi]
+  simp
+
+theorem Bases.get_set_ne (bs : Bases) (i j : Nat) (m : Mem) (h : j ≠ i) : (bs.set i m).get j = bs.get j := by
+  unfold Bases.set Bases.get
+  by_cases hj : j < max bs.length (i + 1)
+  · have hj' : j < (List.range (max bs.length (i + 1))).length := by simpa using hj
+    rw [List.getD_eq_getElem?_getD, List.getElem?_map, List.getElem?_eq_getElem hj']
+    simp [h]
+  · have h1 : (List.map (fun j => if j = i then m else List.getD bs j []) (List.range (max bs.length (i + 1))))[j]? = none := by
+      apply List.getElem?_eq_none; simp; omega
+    have h2 : bs[j]? = none := by apply List.getElem?_eq_none; omega
+    rw [List.getD_eq_getElem?_getD, List.getD_eq_getElem?_getD, h1, h2]
+
+theorem memPut_ok_key {m m' : Mem} {k : Key} {c : Content} (hk : AllProper k)
+    (h : memPut m (renderKey k) c = .ok m') : k ≠ [] := by
+  intro e; subst e
+  unfold memPut at h
+  have : validatePath (renderKey []) = .error .root := by decide
+  rw [this] at h; cases h
+
+theorem putAll_ok_keysValid {objs : List (Str × Content)} (hr : KeysRendered objs) :
+    ∀ {m m' : Mem}, putAll m objs = .ok m' → KeysValid objs := by
+  induction objs with
+  | nil => intro _ _ _; exact keysValid_nil
+  | cons o rest ih =>
+    obtain ⟨q, c⟩ := o
+    intro m m' h
+    obtain ⟨kk, hkk, hq⟩ := hr (q, c) (by simp)
+    simp only at hq
+    unfold putAll at h
+    cases hp : memPut m q c with
+    | error e => rw [hp] at h; cases h
+    | ok m1 =>
+      rw [hp] at h
+      simp only at h
+      have hne : kk ≠ [] := memPut_ok_key hkk (by rw [← hq]; exact hp)
+      have hrest := ih (fun qc hqc => hr qc (List.mem_cons_of_mem _ hqc)) h
+      intro kv hkv
+      rcases List.mem_cons.mp hkv with e | hm
+      · subst e; exact ⟨kk, hkk, hne, hq⟩
+      · exact hrest kv hm
+
+theorem putAll_inv {objs : List (Str × Content)} (hv : KeysValid objs) :
+    ∀ {m m' : Mem}, KeysValid m → NodupKeys m → putAll m objs = .ok m' → KeysValid m' ∧ NodupKeys m' := by
+  induction objs with
+  | nil => intro m m' h1 h2 h; simp [putAll] at h; subst h; exact ⟨h1, h2⟩
+  | cons o rest ih =>
+    obtain ⟨q, c⟩ := o
+    intro m m' h1 h2 h
+    obtain ⟨kk, hkk, hne, hq⟩ := hv (q, c) (by simp)
+    simp only at hq
+    have hput : memPut m q c = .ok ((q, c) :: m.erase q) := by
+      unfold memPut; rw [hq, validatePath_renderKey hkk hne]
+    simp only [putAll, hput] at h
+    refine ih (fun kv hkv => hv kv (List.mem_cons_of_mem _ hkv)) ?_ (nodupKeys_put h2 q c) h
+    rw [hq]; exact keysValid_cons (keysValid_erase h1 _) hkk hne c
+
+/-- putAll without a distinctness hypothesis: a LATER entry for the same path wins. -/
+theorem putAll_last_wins (objs : List (Str × Content)) (hv : KeysValid objs) (m : Mem) :
+    ∃ m', putAll m objs = .ok m' ∧
+      ∀ k : Str, Mem.find m' k = (match Mem.find objs.reverse k with | some c => some c | none => Mem.find m k) := by
+  induction objs generalizing m with
+  | nil => exact ⟨m, rfl, by intro k; simp [Mem.find]⟩
+  | cons o rest ih =>
+    obtain ⟨q, c⟩ := o
+    obtain ⟨kk, hkk, hne, hq⟩ := hv (q, c) (by simp)
+    simp only at hq
+    have hput : memPut m q c = .ok ((q, c) :: m.erase q) := by
+      unfold memPut; rw [hq, validatePath_renderKey hkk hne]
+    obtain ⟨m', hm', hfind⟩ := ih (fun kv hkv => hv kv (List.mem_cons_of_mem _ hkv)) ((q, c) :: m.erase q)
+    refine ⟨m', by simp only [putAll, hput, hm'], ?_⟩
+    intro k
+    rw [hfind k, List.reverse_cons]
+    have happ : ∀ (l : Mem), Mem.find (l ++ [(q, c)]) k =
+        (match Mem.find l k with | some c' => some c' | none => if q = k then some c else none) := by
+      intro l
+      induction l with
+      | nil => simp [Mem.find]
+      | cons x xs ihx =>
+        obtain ⟨a, b⟩ := x
+        by_cases hak : a = k
+        · subst hak; simp [Mem.find]
+        · simp only [List.cons_append]; rw [find_cons_ne _ _ _ _ hak, find_cons_ne _ _ _ _ hak]; exact ihx
+    rw [happ]
+    cases hf : Mem.find rest.reverse k with
+    | some c' => rfl
+    | none =>
+      simp only
+      by_cases hk : q = k
+      · subst hk; rw [find_cons_eq]; simp
+      · rw [find_cons_ne _ _ _ _ hk, find_erase_ne _ _ _ hk]; simp [hk]
+
+/-- storage.Copy from ANY composite: if the copy succeeds, the target holds, at every (non-root)
+    key, the object `Get` finds in the source composite if there is one, else what it held
+    before; the other bases are untouched; the count is the number of walked objects. -/
+theorem rCopy_spec (e : BExpr) (he : e.WF) (bs : Bases) (hbs : BasesOK bs) (t n : Nat) (bs' : Bases)
+    (h : rCopy e bs t = .ok (n, bs')) :
+    (∃ objs, rWalk e bs [] = .ok objs ∧ n = objs.length ∧ KeysValid objs) ∧
+    (∀ j, j ≠ t → bs'.get j = bs.get j) ∧ KeysValid (bs'.get t) ∧ NodupKeys (bs'.get t) ∧
+    ∀ kk : Key, AllProper kk → kk ≠ [] →
+      (bs'.get t).find (renderKey kk) =
+        (match rGet e bs (renderKey kk) with
+          | .ok c => some c
+          | .error _ => (bs.get t).find (renderKey kk)) := by
+  unfold rCopy at h
+  cases hw : rWalk e bs [] with
+  | error er => rw [hw] at h; cases h
+  | ok objs =>
+    rw [hw] at h
+    simp only at h
+    cases hp : putAll (bs.get t) objs with
+    | error er => rw [hp] at h; cases h
+    | ok m' =>
+      rw [hp] at h
+      injection h with h
+      injection h with hn hb
+      obtain ⟨kq, hkq, hnv, hc⟩ := rWalk_coherent e he bs hbs [] objs hw
+      have hkq0 : kq = [] := by
+        have h0 : normalizeAndValidate [] = .ok (renderKey []) := by decide
+        exact renderKey_inj_of_validate hkq allProper_nil hnv h0
+      subst hkq0
+      have hvo : KeysValid objs := putAll_ok_keysValid hc.rendered hp
+      obtain ⟨m2, hm2, hfind⟩ := putAll_spec objs hvo hc.nodup (bs.get t)
+      rw [hp] at hm2; injection hm2 with hm2; subst hm2
+      obtain ⟨hvt, hnt⟩ := putAll_inv hvo (hbs t).1 (hbs t).2 hp
+      subst hb
+      refine ⟨⟨objs, rfl, hn.symm, hvo⟩, fun j hj => Bases.get_set_ne bs t j m' hj, ?_, ?_, ?_⟩
+      · rw [Bases.get_set_eq]; exact hvt
+      · rw [Bases.get_set_eq]; exact hnt
+      · intro kk hkk hne
+        rw [Bases.get_set_eq, hfind]
+        rcases hc.total kk hkk hne List.nil_prefix with ⟨c, hg⟩ | hg
+        · rw [hg, (mem_iff_find hc.nodup _ _).mp (hc.complete kk c hkk hne List.nil_prefix hg)]
+        · rw [hg]
+          cases hf : Mem.find objs (renderKey kk) with
+          | none => rfl
+          | some c =>
+            have := (hc.sound kk c hkk (find_some_mem hf)).2 hne
+            rw [hg] at this; cases this
+
+/-- … and the copy does succeed whenever the source walk succeeds and does not report the view
+    root "." itself as an object. -/
+theorem rCopy_succeeds (e : BExpr) (he : e.WF) (bs : Bases) (hbs : BasesOK bs) (t : Nat)
+    (objs : List (Str × Content)) (hw : rWalk e bs [] = .ok objs) (hroot : ∀ c, (dot, c) ∉ objs) :
+    ∃ bs', rCopy e bs t = .ok (objs.length, bs') := by
+  obtain ⟨kq, hkq, hnv, hc⟩ := rWalk_coherent e he bs hbs [] objs hw
+  have hvo : KeysValid objs := by
+    intro kv hkv
+    obtain ⟨kk, hkk, hk⟩ := hc.rendered kv hkv
+    refine ⟨kk, hkk, ?_, hk⟩
+    intro e0; subst e0
+    apply hroot kv.2
+    rw [← renderKey_nil, ← hk]; exact hkv
+  obtain ⟨m', hm', _⟩ := putAll_spec objs hvo hc.nodup (bs.get t)
+  exact ⟨bs.set t m', by simp only [rCopy, hw, hm']⟩
+
+/-! #### WalkReadObjects -/
+
+theorem readObjects_eq (e : BExpr) (bs : Bases) (l : List (Str × Content))
+    (h : ∀ kv ∈ l, rGet e bs kv.1 = .ok kv.2) : readObjects e bs l = .ok l := by
+  induction l with
+  | nil => rfl
+  | cons kv rest ih =>
+    unfold readObjects
+    rw [h kv (by simp), ih (fun x hx => h x (List.mem_cons_of_mem _ hx))]
+
+theorem readObjects_ok_get (e : BExpr) (bs : Bases) :
+    ∀ (l out : List (Str × Content)), readObjects e bs l = .ok out →
+      ∀ kv ∈ l, ∃ c, rGet e bs kv.1 = .ok c := by
+  intro l
+  induction l with
+  | nil => intro out _ kv hkv; cases hkv
+  | cons x rest ih =>
+    intro out h kv hkv
+    unfold readObjects at h
+    cases hg : rGet e bs x.1 with
+    | error er => rw [hg] at h; cases h
+    | ok c =>
+      rw [hg] at h
+      simp only at h
+      cases hr : readObjects e bs rest with
+      | error er => rw [hr] at h; cases h
+      | ok out' =>
+        rcases List.mem_cons.mp hkv with e1 | hm
+        · subst e1; exact ⟨c, hg⟩
+        · exact ih out' hr kv hm
+
+/-! #### small facts about concrete base lists -/
+
+theorem basesOK_pair {src dst : Mem} (hv : KeysValid src) (hn : NodupKeys src) (hvd : KeysValid dst)
+    (hnd : NodupKeys dst) : BasesOK [src, dst] := by
+  intro i
+  match i with
+  | 0 => exact ⟨hv, hn⟩
+  | 1 => exact ⟨hvd, hnd⟩
+  | n + 2 => exact ⟨by simp [Bases.get, keysValid_nil], by simp [Bases.get, NodupKeys]⟩
+
+theorem walk_all_mem (m : Mem) (rest : Bases) : rWalk (.base 0) (m :: rest) [] = .ok m := by
+  have : memWalk m [] = .ok (m.filter fun kv => equalsOrContainsPath dot kv.1) := by
+    unfold memWalk validatePrefix
+    have : normalizeAndValidate [] = .ok dot := by decide
+    rw [this]
+  simp only [rWalk, Bases.get, List.getD_cons_zero]
+  rw [this]
+  congr 1
+  apply List.filter_eq_self.mpr
+  intro kv _; simp [equalsOrContainsPath]
+
+theorem basesOK_single {m : Mem} (hv : KeysValid m) (hn : NodupKeys m) : BasesOK [m] := by
+  intro i
+  match i with
+  | 0 => exact ⟨hv, hn⟩
+  | n + 1 => exact ⟨by simp [Bases.get, keysValid_nil], by simp [Bases.get, NodupKeys]⟩
+
+/-! #### keyOf -/
+
+theorem keyOf_of_validate {s : Str} {k : Key} (hk : AllProper k)
+    (h : normalizeAndValidate s = .ok (renderKey k)) : keyOf s = .ok k := by
+  unfold keyOf; rw [h]; simp [cleanComps_renderKey hk]
+
+/-- `keyOf s = ok k` means: `s` normalises and validates to the rendering of the key `k`. -/
+theorem keyOf_ok {s : Str} {k : Key} (h : keyOf s = .ok k) :
+    AllProper k ∧ normalizeAndValidate s = .ok (renderKey k) := by
+  unfold keyOf at h
+  cases hv : normalizeAndValidate s with
+  | error e => rw [hv] at h; cases h
+  | ok p =>
+    rw [hv] at h
+    injection h with h
+    obtain ⟨k', hk', hp⟩ := validate_sound s p hv
+    rw [hp, cleanComps_renderKey hk'] at h
+    subst h
+    exact ⟨hk', by rw [hp]⟩
+
+theorem keyOf_dot {s : Str} (h : normalizeAndValidate s = .ok dot) : keyOf s = .ok [] := by
+  unfold keyOf; rw [h]; decide
+
+theorem keyOf_error {s : Str} {e : PErr} (h : normalizeAndValidate s = .error e) : keyOf s = .error e := by
+  unfold keyOf; rw [h]
+
+theorem validatePath_cases (s : Str) :
+    (∃ e, normalizeAndValidate s = .error e ∧ validatePath s = .error e) ∨
+    (normalizeAndValidate s = .ok dot ∧ validatePath s = .error .root) ∨
+    (∃ k : Key, AllProper k ∧ k ≠ [] ∧ normalizeAndValidate s = .ok (renderKey k) ∧
+      validatePath s = .ok (renderKey k)) := by
+  unfold validatePath
+  cases hv : normalizeAndValidate s with
+  | error e => exact Or.inl ⟨e, rfl, rfl⟩
+  | ok p =>
+    obtain ⟨k, hk, hp⟩ := BufModel.Path.validate_sound s p hv
+    subst hp
+    by_cases hd : renderKey k = dot
+    · rw [hd]; exact Or.inr (Or.inl ⟨rfl, by simp⟩)
+    · refine Or.inr (Or.inr ⟨k, hk, ?_, rfl, by simp [hd]⟩)
+      intro e; subst e; exact hd renderKey_nil
+
 end BufModel.Bucket
